@@ -54,6 +54,7 @@ SIG_PS = "stats:phased-call-missing-ps"
 SIG_HP = "vcfreader:hp-none-crash"
 SIG_CRASH = "stats:crash"
 SIG_SPEC = "stats:counts-spec"
+SIG_ALL = "stats:all-row-block-lengths"
 
 
 def rules_term():
@@ -68,7 +69,7 @@ def rules_term():
 
 def l1_fn():
     return ("fun c => match c with (opts, header, groups, given, out) => "
-            "match out with ROk o => l1_run (fst opts) groups given o | RErr _ => false end end")
+            "match out with ROk o => l1_run (fst opts) groups given o && all_span_ok (fst opts) groups o | RErr _ => false end end")
 
 
 def l2_fn():
@@ -189,7 +190,10 @@ def classify_batch(name, results):
     (everything else repaired). Anything the defective rules do not explain gets a generic signature."""
     if not results:
         return []
-    fns = {"F4": model_eq_fn(False, True), "PS": model_eq_fn(True, False), "BOTH": model_eq_fn(False, False)}
+    fns = {"F4": model_eq_fn(False, True), "PS": model_eq_fn(True, False), "BOTH": model_eq_fn(False, False),
+           # everything the property demands holds except the block-length fields of the ALL row
+           "ALLLEN": ("fun c => match c with (opts, header, groups, given, out) => "
+                      "match out with ROk o => l1_run_nolen (fst opts) groups given o | RErr _ => false end end")}
     failing, errors = eval_checks(name, HEADER, fns, [res_term(r) for r in results], shard=60)
     if errors:
         raise RuntimeError("coq evaluation failed: " + errors[0][1])
@@ -197,6 +201,8 @@ def classify_batch(name, results):
     for i, r in enumerate(results):
         if r["rc"] != 0 and "'NoneType' object has no attribute 'split'" in r["stderr"]:
             out.append([SIG_HP])
+        elif i not in failing["ALLLEN"]:
+            out.append([SIG_ALL])
         elif i not in failing["F4"]:
             out.append([SIG_F4])
         elif i not in failing["PS"]:
@@ -253,8 +259,11 @@ def describe(res):
     else:
         names = {v: k for k, v in res["ids"].items()}
         got = "; ".join(f"{names[cid]}: " + ",".join(f"{k}={v}" for k, v in zip(G.INT_FIELDS, d[0])
-                                                     if k in ("variants", "heterozygous_variants", "phased", "unphased", "singletons", "blocks"))
+                                                     if k in ("variants", "heterozygous_variants", "phased", "unphased", "singletons", "blocks", "bp_per_block_sum"))
                         for cid, d in res["out"]["rows"])
+        if res["out"]["all"] is not None:
+            got += "; ALL: " + ",".join(f"{k}={v}" for k, v in zip(G.INT_FIELDS, res["out"]["all"][0])
+                                        if k in ("variants", "phased", "blocks", "bp_per_block_min", "bp_per_block_max", "bp_per_block_sum"))
         got += " | block list " + str([(names[c], k, a, b, n) for c, k, a, b, n in res["out"]["bl"]])
     exp = []
     for cname, recs in res["groups"]:
@@ -262,7 +271,7 @@ def describe(res):
             continue
         s = G.o_spec(bool(c.get("only_snvs")), recs)
         exp.append(f"{cname}: variants={s['variants']},heterozygous_variants={s['het']},phased={s['phased']},"
-                   f"unphased={s['unphased']},singletons={s['singletons']},blocks={s['blocks']} sets={s['bl']}")
+                   f"unphased={s['unphased']},singletons={s['singletons']},blocks={s['blocks']},covered_span={s['span']} sets={s['bl']}")
     return f"stats {opts} on\n" + "\n".join(body) + f"\nreported: {got}\nindependent count: " + "; ".join(exp)
 
 
@@ -275,6 +284,9 @@ WHAT = {
     SIG_HP: "VcfReader._extract_HP_phase crashes on an HP value of (None,)",
     SIG_CRASH: "whatshap stats aborted on an input inside the property's domain",
     SIG_SPEC: "reported numbers / block list contradict the independent count over the file",
+    SIG_ALL: "the ALL row's block-length fields (bp_per_block_sum / min / max) are not the sum / min / max of the "
+             "per-chromosome rows (or the sum exceeds the total covered span) while every per-chromosome row, the block "
+             "list and all counts are right: the aggregated object does not hold the per-chromosome non-overlapping pieces",
 }
 
 
@@ -336,7 +348,9 @@ OVERLAP_CORPUS = {
 def run(ctx):
     rng = ctx.rng
     wd = workdir(ctx)
-    cases = [F4_CORPUS, OVERLAP_CORPUS, dict(OVERLAP_CORPUS, only_snvs=True), dict(OVERLAP_CORPUS, chromosomes=["chrB"]),
+    # corpus: a phase set nested in another on chr1, ordinary blocks on chr2 / chr3 that start between the two
+    cross = G._grid_case(["aaabbaa", "-cccu", "ccb"], [0, 50, -99], tag="corpus_cross")
+    cases = [cross, dict(cross, only_snvs=True), F4_CORPUS, OVERLAP_CORPUS, dict(OVERLAP_CORPUS, only_snvs=True), dict(OVERLAP_CORPUS, chromosomes=["chrB"]),
              dict(OVERLAP_CORPUS, indexed=True, chromosomes=["chrB,chrA"])]
     exh = list(G.gen_exhaustive(ctx.n(3, 4), "PS", symbols=ctx.n("abuhmp", "abuhmpi")))
     if not ctx.quick:
@@ -346,6 +360,12 @@ def run(ctx):
     ctx.extra["exhaustive_space"] = (f"{len(exh)} cases: every sequence of up to {ctx.n(3, 4)} calls from {{het in set 7, het in set 3, "
                                      "het unphased, hom with PS/HP, missing, partially missing with PS/HP" + ("" if ctx.quick else ", indel het in set 7") + "} "
                                      "on one chromosome (PS tags" + ("" if ctx.quick else " and HP tags") + "), sequences with an indel also under --only-snvs")
+    grid = list(G.gen_grid_exhaustive(ctx.n(4, 5)))
+    grid += [G.gen_grid_random(rng) for _ in range(ctx.n(80, 1000))]
+    cases += grid
+    ctx.extra["grid_stream"] = (f"{len(grid)} cases with 2-3 chromosomes on one coordinate grid: every pair (two phase sets with "
+                                f">= 2 members each over {ctx.n(4, 5)} slots) x (one phase set with >= 2 members among unphased calls), "
+                                "second chromosome aligned and shifted by half a slot, plus random grid layouts")
     n = ctx.n(250, 3000)
     for i in range(n):
         size = "tiny" if i % 5 == 0 else ("large" if i % 7 == 0 else "small")
@@ -376,6 +396,11 @@ def run(ctx):
             ctx.tally("opt.chr_lengths")
         if t.get("unsorted"):
             ctx.tally("malformed.unsorted")
+        for k in ("grid_exhaustive", "grid_random", "exhaustive"):
+            if t.get(k):
+                ctx.tally("stream." + k)
+        if r["out"] and not isinstance(r["out"], str) and r["out"]["all"] is not None:
+            ctx.tally("with_ALL_row")
         if any(G.missing_gt(x) for x in processed_recs(r)):
             ctx.tally("with_missing_or_partial_genotype")
         if any(G.ps_missing_phased(x) for x in processed_recs(r)):
